@@ -233,6 +233,8 @@ fn prop_cmd(args: &[String]) -> i32 {
     let seed: u64 = arg(args, "--seed").and_then(|s| s.parse().ok()).unwrap_or(0);
     let out = arg(args, "--out");
     let max_secs: Option<f64> = arg(args, "--cfg-max-secs").and_then(|s| s.parse().ok());
+    let emit = arg(args, "--emit-outcomes");
+    let mut emitted = String::new();
     let list = configs::for_property(&prop, tier);
     let total = list.len();
     let start = Instant::now();
@@ -275,6 +277,11 @@ fn prop_cmd(args: &[String]) -> i32 {
         }
         outcomes_total += r.outcomes.len() as u64;
         let cli = format!("{}{}", cfg.cli(), o.cli());
+        if emit.is_some() {
+            let oc: Vec<String> = r.outcomes.iter().map(|h| format!("{h:016x}")).collect();
+            let vc: Vec<String> = r.viols.keys().map(|(p, c)| format!("{p}/{c}")).collect();
+            emitted.push_str(&format!("{cli}\t{}\t{}\t{}\n", oc.join(","), vc.join(","), r.stats.capped));
+        }
         if r.stats.capped {
             capped.push(cli.clone());
         }
@@ -345,6 +352,13 @@ fn prop_cmd(args: &[String]) -> i32 {
         slowest.0,
         start.elapsed().as_secs_f64()
     );
+    if let Some(path) = emit {
+        let path = format!("{path}.{si}");
+        if let Err(e) = std::fs::write(&path, &emitted) {
+            eprintln!("cannot write {path}: {e}");
+            return 2;
+        }
+    }
     match out {
         Some(path) => {
             if let Err(e) = std::fs::write(path, &json) {
